@@ -304,7 +304,8 @@ class CHECK(core.Check):
                     kind = KINDS[i % len(KINDS)]
                     i += 1
                     ops = [["tx", D.hx(m)] for m in msgs] + [["feedtx", list(seq)]] + [["stx"]] * (ln + 1)
-                    ops += [["feedtx", ["a9"] * (ln + 2)]] + [["stx"]] * (ln + 2)      # drain tail (progress)
+                    nd = ln + len(msgs) + 2
+                    ops += [["feedtx", ["a9"] * nd]] + [["stx"]] * nd                  # drain tail (progress)
                     verb = (i // len(KINDS)) % 5
                     ptype = (i // (5 * len(KINDS))) % 3
                     if ptype == 2 and verb == 4:
@@ -415,8 +416,8 @@ class CHECK(core.Check):
                     ops.append(["stx"])
             drain = int(rng.random() < 0.3)
             if drain:     # progress: once the socket takes every byte offered, enough service calls empty the deque
-                fed = sum(len(op[1]) for op in ops if op[0] == "feedtx")
-                ops += [["feedtx", ["a100000"] * (fed + 2)]] + [["stx"]] * (fed + 2)
+                nd = sum(len(op[1]) for op in ops if op[0] == "feedtx") + sum(1 for op in ops if op[0] == "tx") + 2
+                ops += [["feedtx", ["a100000"] * nd]] + [["stx"]] * nd
             verb = rng.randrange(5)
             ptype = rng.choice([0, 0, 1, 2]) if verb < 4 else rng.randrange(2)
             yield {"kind": kind, "wlog": rng.randrange(2), "bs": bs, "verb": verb, "ptype": ptype,
@@ -688,12 +689,32 @@ class CHECK(core.Check):
                         % (i, op[0], taken.hex(), rx.hex(), recvd.hex()))
             if logs and wrx != recvd:
                 return "op %d %s: wire log rx records %s != received bytes %s" % (i, op[0], wrx.hex(), recvd.hex())
-        if case.get("drain") and benign and case["ops"]:
+        m = self._drain_tail(case["ops"])
+        if m and benign:
             f = self._fields(out[-1])
             if f["cut"] == "0" and f["live"] == "1" and f["q"] != ".":
                 return ("progress: the socket accepted every byte offered during the last %d service calls, yet %s is "
-                        "still queued" % (sum(1 for op in case["ops"][-50:] if op[0] == "stx"), f["q"][:60]))
+                        "still queued" % (m, f["q"][:60]))
         return None
+
+    @staticmethod
+    def _drain_tail(ops):
+        """number of trailing serviceTxes calls if the history ends with a drain tail - an all-accepting feed large
+        enough for every message ever queued, then enough service calls to get past every answer fed earlier - else 0"""
+        m = 0
+        while m < len(ops) and ops[len(ops) - 1 - m] == ["stx"]:
+            m += 1
+        if m == 0 or m == len(ops):
+            return 0
+        feed, before = ops[len(ops) - 1 - m], ops[:len(ops) - 1 - m]
+        if feed[0] != "feedtx":
+            return 0
+        longest = max([len(D.unhx(op[1])) for op in before if op[0] == "tx"] + [1])
+        if not all(t[0] == "a" and int(t[1:]) >= longest for t in feed[1]):
+            return 0
+        fed = sum(len(op[1]) for op in before if op[0] == "feedtx")
+        msgs = sum(1 for op in before if op[0] == "tx")
+        return m if len(feed[1]) >= msgs and m >= fed + 1 else 0
 
     def nontrivial(self, case, out):
         if case.get("real"):
